@@ -164,6 +164,75 @@ impl Profile {
             ..Profile::rust()
         }
     }
+    /// C19: the constructs on which the Java backend's generated classes are exercised at run time.  Wider than
+    /// `java()` (the C10 compile domain): descriptions the generator or javac refuses are dropped and counted.
+    /// Still excluded: optional fields, padding, element-size and custom fields (not supported by the backend),
+    /// `_body_` parents (no fallback child by design), children without constraints (fromBytes of one alias sibling
+    /// cannot be told from the other by an eagerly dispatching parent), unsized arrays/payloads that are not last
+    /// (the backends resolve that degenerate shape differently), 1-bit fields and struct inheritance (see DESIGN.md).
+    pub fn java_rt() -> Profile {
+        Profile {
+            name: "java-rt".into(),
+            fixed_fields: true,
+            groups: true,
+            struct_fields: true,
+            enum_arrays: true,
+            multi_constraints: true,
+            fields_after_payload: true,
+            enum_constraints: true,
+            struct_arrays_by_size: true,
+            payload_modifier: true,
+            array_modifier: true,
+            odd_scalar_arrays: true,
+            size_only_children: true,
+            max_depth: 3,
+            max_len_width: 31,
+            signed_constraints: false,
+            max_discr_width: 64,
+            max_enum_elem_width: 64,
+            ..Profile::java()
+        }
+    }
+    /// exploration only: override one flag by name (used by survey runs, never by registered commands)
+    pub fn set(&mut self, key: &str, v: u64) {
+        let b = v != 0;
+        match key {
+            "multi_constraints" => self.multi_constraints = b,
+            "fields_after_payload" => self.fields_after_payload = b,
+            "signed_constraints" => self.signed_constraints = b,
+            "fixed_fields" => self.fixed_fields = b,
+            "nonempty_records" => self.nonempty_records = b,
+            "enum_arrays" => self.enum_arrays = b,
+            "enum_constraints" => self.enum_constraints = b,
+            "struct_arrays_by_size" => self.struct_arrays_by_size = b,
+            "struct_fields" => self.struct_fields = b,
+            "max_discr_width" => self.max_discr_width = v as u32,
+            "max_enum_elem_width" => self.max_enum_elem_width = v as u32,
+            "structs_first" => self.structs_first = b,
+            "min_len_width" => self.min_len_width = v as u32,
+            "min_enum_width" => self.min_enum_width = v as u32,
+            "max_enum_width" => self.max_enum_width = v as u32,
+            "min_scalar_width" => self.min_scalar_width = v as u32,
+            "odd_scalar_arrays" => self.odd_scalar_arrays = b,
+            "round_trip" => self.round_trip = b,
+            "struct_inherit" => self.struct_inherit = b,
+            "body" => self.body = b,
+            "array_modifier" => self.array_modifier = b,
+            "payload_modifier" => self.payload_modifier = b,
+            "groups" => self.groups = b,
+            "enum_default_first" => self.enum_default_first = b,
+            "alias_children" => self.alias_children = b,
+            "size_only_children" => self.size_only_children = b,
+            "max_depth" => self.max_depth = v as usize,
+            "unsized_not_last" => self.unsized_not_last = b,
+            "max_len_width" => self.max_len_width = v as u32,
+            "one_enum_per_struct_run" => self.one_enum_per_struct_run = b,
+            "child_payload_unsized" => self.child_payload_unsized = b,
+            "enum_first_value" => self.enum_first_value = b,
+            "enum_needs_value" => self.enum_needs_value = b,
+            _ => panic!("unknown profile flag {key}"),
+        }
+    }
     pub fn front_end() -> Profile {
         Profile { name: "front-end".into(), array_modifier: true, enum_default_first: true, max_len_width: 64, checksum: false, ..Profile::rust() }
     }
@@ -174,6 +243,7 @@ impl Profile {
             "python" => Profile::python(),
             "cxx" => Profile::cxx(),
             "java" => Profile::java(),
+            "java-rt" => Profile::java_rt(),
             "front-end" => Profile::front_end(),
             _ => panic!("unknown profile {n}"),
         }
